@@ -8,6 +8,7 @@ const (
 	resourcesExhausted            = "resources exhausted"
 	ioError                       = "I/O error"
 	duplicateUUIDName             = "duplicate uuid name"
+	duplicateUUIDNameRFC          = "duplicate uuid-name" // the string of RFC 7047 5.2.1, the one sent
 	domainError                   = "domain error"
 	rangeError                    = "range error"
 	timedOut                      = "timed out"
@@ -31,7 +32,7 @@ func errorFromResult(op *Operation, r OperationResult) OperationError {
 		return &ResourcesExhausted{r.Details, op}
 	case ioError:
 		return &IOError{r.Details, op}
-	case duplicateUUIDName:
+	case duplicateUUIDName, duplicateUUIDNameRFC:
 		return &DuplicateUUIDName{r.Details, op}
 	case domainError:
 		return &DomainError{r.Details, op}
@@ -64,7 +65,7 @@ func ResultFromError(err error) OperationResult {
 	case *IOError:
 		return OperationResult{Error: ioError, Details: e.details}
 	case *DuplicateUUIDName:
-		return OperationResult{Error: duplicateUUIDName, Details: e.details}
+		return OperationResult{Error: duplicateUUIDNameRFC, Details: e.details}
 	case *DomainError:
 		return OperationResult{Error: domainError, Details: e.details}
 	case *RangeError:
